@@ -125,6 +125,24 @@ class LoopSpec:
     def run(self, it, s, fr, iterable):
         st = it.st
         is_for = isinstance(s, ast.For)
+        if is_for and type(iterable).__name__ == 'RangeV' and len(iterable.args) == 1:
+            # range(k) for a symbolic k: the sequence 0 .. max(k, 0) - 1
+            from .env import int_term
+            k = int_term(iterable.args[0])
+            iterable = SymSeq(z3.If(k > 0, k, 0), lambda i: SV('int', i), tag='range')
+        if is_for and type(iterable).__name__ == 'ZipV':
+            # zip of symbolic sequences: position-wise tuples up to the shorter length
+            parts = []
+            for x in iterable.parts:
+                if isinstance(x, Obj) and not isinstance(x, SymSeq):
+                    x = it.call(it.getattr(x, '__iter__'), [], {})
+                if not isinstance(x, SymSeq):
+                    raise Unsupported('zip over %r under a loop contract' % (x,))
+                parts.append(x)
+            nmin = parts[0].n
+            for x in parts[1:]:
+                nmin = z3.If(x.n < nmin, x.n, nmin)
+            iterable = SymSeq(nmin, lambda i, parts=parts: tuple(x.elem(i) for x in parts), tag='zip')
         if is_for and not isinstance(iterable, SymSeq):
             raise Unsupported('loop contract %s expects a symbolic sequence, got %r' % (self.name, iterable))
         zero = z3.IntVal(0) if is_for else None
@@ -133,6 +151,7 @@ class LoopSpec:
         # arbitrary iteration or exit
         if is_for:
             n = iterable.n
+            st.ghost['loop_bound:' + self.name] = n        # number of iterations, for obligations about it
             i = st.fresh('iter_' + self.name.split('.')[-1], z3.IntSort())
             if st.branch(z3.And(i >= 0, i < n)):
                 self.havoc(it, s, fr)
